@@ -75,7 +75,9 @@ LTickEn == lstate = "hot" /\ ack = 0
 MDoneEn == mstate = "hot" /\ \A p \in Pools : reserve[p] # NoSess
 WPickEn(p) == wpc[p] = "pick" /\ mstate # "hot"
 WLostEn(p) == wpc[p] = "watch" /\ ~sess[wsess[p]].alive
-WRebuildEn(p) == wpc[p] = "sleep" /\ closed = "no"
+\* (a rebuild whose timer has fired goes on although Close has been called meanwhile: Close waits for the watcher and closes
+\*  the pools afterwards, so the session it stores is closed by Close)
+WRebuildEn(p) == wpc[p] = "sleep" /\ closed # "closed"
                  /\ (sess[cur[p]].epoch # sess[wsess[p]].epoch \/ (Connect # "none" /\ nextId <= MaxSess))
 WExitEn(p) == closed = "closing" /\ (wpc[p] \in {"watch", "sleep"} \/ (wpc[p] = "pick" /\ mstate # "hot"))
 CloseFinEn == closed = "closing" /\ \A p \in Pools : wpc[p] = "exit"
@@ -245,8 +247,8 @@ Healing(p) == \/ closed # "no" \/ wpc[p] \in {"sleep", "pick"}
 GetStreamWorks == \A p \in Pools : sess[cur[p]].alive \/ Healing(p)
 \* no session is created that no pool refers to (a rebuilt session stored into a dropped pool object)
 NoOrphan == \A i \in Live : sess[i].pool # 0 /\ closed = "no" => (cur[sess[i].pool] = i \/ reserve[sess[i].pool] = i)
-\* C17: after Close has returned no further session is created
-AfterCloseNoNew == closed = "closed" => nextId = idAtClose
+\* C17: after Close has returned no further session is created, and no session of a pool is left open
+AfterCloseNoNew == closed = "closed" => (nextId = idAtClose /\ \A p \in Pools : ~sess[cur[p]].alive)
 \* the invariants as checked: states inside a listed known-finding class are outside the claim
 K_AckNonNeg == NotPruned => AckNonNeg
 K_AckExact == NotPruned => AckExact
